@@ -735,7 +735,7 @@ class YAMLPath:
                         and search_method is not None
                 ):
                     # Undemarcate the search term, if it is so
-                    if segment_id and segment_id[0] in ["'", '"']:
+                    if len(segment_id) > 1 and segment_id[0] in ["'", '"']:
                         leading_mark = segment_id[0]
                         if segment_id[-1] == leading_mark:
                             segment_id = segment_id[1:-1]
